@@ -3,6 +3,7 @@
 mod common;
 mod hnd;
 mod kb;
+mod svcq;
 mod pkt;
 mod talk;
 mod vote;
@@ -25,6 +26,7 @@ fn main() {
     match args[0].as_str() {
         "hnd" => hnd::main(&args[1..]),
         "kb" => kb::main(&args[1..]),
+        "svcq" => svcq::main(&args[1..]),
         "pkt" => pkt::main(&args[1..]),
         "talk" => talk::main(&args[1..]),
         "vote" => vote::main(&args[1..]),
